@@ -35,11 +35,12 @@ func Bind(s *StreamOfStates, g Goal) *StreamOfStates {
 	if s == nil {
 		return nil
 	}
-	car, cdr := s.CarCdr()
-	if car != nil { // not a suspension => procedure? == false
-		return Mplus(g(car), Bind(cdr, g))
+	if s.state == nil { // a suspension => procedure? == true: do not run it before the bound stream is forced
+		return Suspension(func() *StreamOfStates {
+			_, cdr := s.CarCdr()
+			return Bind(cdr, g)
+		})
 	}
-	return Suspension(func() *StreamOfStates {
-		return Bind(cdr, g)
-	})
+	car, cdr := s.CarCdr()
+	return Mplus(g(car), Bind(cdr, g))
 }
